@@ -1,5 +1,6 @@
 import Tahoe.Base.DrvUtil
 import Tahoe.StorageClient.Model
+import Tahoe.GridManager.DrvParse
 /-! Driver for C32.
 
     psi  <preferred> <forUpload> <server>…        → ids of get_servers_for_psi, comma-separated (`-` if none)
@@ -10,7 +11,11 @@ import Tahoe.StorageClient.Model
   server           `<id>:<connected 0|1>:<permitted 0|1>:<sha1 hex of psi+seed>` — for `psi` in the
                    iteration order of the frozenset of connected servers, for `goal` in
                    `full_serverlist` order (hash unused there: `0`)
-  goal             `-` or comma-separated `<server id>.<shnum>` -/
+  goal             `-` or comma-separated `<server id>.<shnum>`
+
+    hist <keys> <preferred> <forUpload> <time> S <id> <connected> <sha1> <cert|U>… S …
+         → ids of get_servers_for_psi at that time after the announcements `S …` in order of arrival
+           (`serversAfter`; certificate tokens as in Drv/C33.lean, `U` = undecodable entry) -/
 open Tahoe.Drv Tahoe.StorageClient
 
 def hexToNat (s : String) : Option Nat :=
@@ -31,6 +36,7 @@ def parsePairs (t : String) : Option (List (Nat × Nat)) :=
     | _ => none)
 
 def handle : List String → String
+  | "hist" :: rest => Tahoe.GMDrv.handleServers true rest
   | "psi" :: prefT :: fuT :: srvs =>
     match parseNatList prefT, parseBool fuT, srvs.mapM parseServer with
     | some pref, some fu, some l =>
